@@ -1,5 +1,7 @@
 import Holpy.Common.Sexp
 import Holpy.C05.Model
+import Holpy.C05.NormModel
+import Holpy.C05.IntervalModel
 /-
 Line protocol for the C05 model (one s-expression in, one out):
   (nat_eval E)   -> (ok N) | (err KIND)
@@ -8,6 +10,9 @@ Line protocol for the C05 model (one s-expression in, one out):
   (macro NAME E) -> (ok E') | (err KIND)          E' = the asserted statement
   (den E)        -> none | (n K) | (i K) | (q NUM DEN) | (b T|F)     (atoms: no value)
   (wt E)         -> T | F
+  (ivl E ((NAME N D N D N D N D) ...) (N D N D)) -> (ok N D N D) | (err KIND)      [bnd: the same for evalBounds]
+        ivEval with exact rational interval arithmetic, the recorded calls NAME(arg lo, arg hi) = (res lo, res hi) of
+        exp log sqrt sin cos, and the interval used for pi
   (ineq REL N D N D N D N D) -> T | F   REL = eq ne lt le gt ge; bounds lo1 hi1 lo2 hi2 as num den
 NUM = (int K) | (frac NUM DEN)
 E   = (zero T) (one T) (bit0 E) (bit1 E) (suc E) (ofnat T E) (ofint E) (plus T E E) (minus T E E)
@@ -34,6 +39,15 @@ def tyTo : Ty → Sexp
   | .bool => .atom "bool"
   | .other => .atom "other"
 
+def fnOf : String → Option Fn
+  | "sqrt" => some .sqrt | "sin" => some .sin | "cos" => some .cos | "tan" => some .tan | "cot" => some .cot
+  | "sec" => some .sec | "csc" => some .csc | "log" => some .log | "exp" => some .exp | "abs" => some .abs
+  | "atn" => some .atn | _ => none
+
+def fnName : Fn → String
+  | .sqrt => "sqrt" | .sin => "sin" | .cos => "cos" | .tan => "tan" | .cot => "cot" | .sec => "sec"
+  | .csc => "csc" | .log => "log" | .exp => "exp" | .abs => "abs" | .atn => "atn"
+
 partial def exprOf : Sexp → Option AExpr
   | .atom "tru" => some .tru
   | .atom "fls" => some .fls
@@ -58,6 +72,8 @@ partial def exprOf : Sexp → Option AExpr
   | .list [.atom "ge", t, a, b] => do some (.cmp .ge (← tyOf t) (← exprOf a) (← exprOf b))
   | .list [.atom "neg", a] => do some (.neg (← exprOf a))
   | .list [.atom "atom", t, i, v] => do some (.atom (← tyOf t) (← i.toNat?) (← v.toBool?))
+  | .list [.atom "fn", .atom f, a] => do some (.fn (← fnOf f) (← exprOf a))
+  | .atom "pi" => some .pi
   | _ => none
 
 def cmpName : Cmp → String
@@ -84,6 +100,8 @@ partial def exprTo : AExpr → Sexp
   | .cmp op t a b => .list [.atom (cmpName op), tyTo t, exprTo a, exprTo b]
   | .neg a => .list [.atom "neg", exprTo a]
   | .atom t i v => .list [.atom "atom", tyTo t, Sexp.ofNat i, Sexp.ofBool v]
+  | .fn f a => .list [.atom "fn", .atom (fnName f), exprTo a]
+  | .pi => .atom "pi"
 
 def errTo : Err → String
   | .conv => "conv"
@@ -116,7 +134,7 @@ def noVal : Nat → Val := fun _ => .b false
 
 def hasAtom : AExpr → Bool
   | .zero _ | .one _ | .tru | .fls => false
-  | .atom _ _ _ => true
+  | .atom _ _ _ | .pi | .fn _ _ => true
   | .bit0 a | .bit1 a | .suc a | .ofNat _ a | .ofInt a | .uminus _ a | .inverse a | .neg a => hasAtom a
   | .plus _ a b | .minus _ a b | .times _ a b | .divide a b | .power _ a b | .eq _ a b
   | .cmp _ _ a b => hasAtom a || hasAtom b
@@ -134,6 +152,10 @@ def handle (line : String) : String :=
   | some (.list [.atom "real_eval", e]) =>
     match exprOf e with
     | some x => resTo numTo (realEval x)
+    | none => "bad-op"
+  | some (.list [.atom "macro", .atom "real_norm", e]) =>
+    match exprOf e with
+    | some x => resTo (fun th => exprTo th.prop) (acceptRealNorm x)
     | none => "bad-op"
   | some (.list [.atom "macro", .atom name, e]) =>
     match macroOf name, exprOf e with
@@ -154,6 +176,21 @@ def handle (line : String) : String :=
     match r, q a b, q c d, q e f, q g h with
     | some r, some lo1, some hi1, some lo2, some hi2 => toString (Sexp.ofBool (intervalAccept r lo1 hi1 lo2 hi2))
     | _, _, _, _, _ => "bad-op"
+  | some (.list [.atom which, e, .list rows, .list [pa, pb, pc, pd]]) =>
+    if which != "ivl" && which != "bnd" then "bad-op" else
+    let q (n d : Sexp) : Option Rat := do
+      let n ← n.toInt?
+      let d ← d.toNat?
+      if d == 0 then none else some (mkRat n d)
+    let row : Sexp → Option (String × Iv × Iv)
+      | .list [.atom nm, a, b, c, d, e, f, g, h] => do
+        some (nm, ((← q a b), (← q c d)), ((← q e f), (← q g h)))
+      | _ => none
+    match exprOf e, rows.mapM row, q pa pb, q pc pd with
+    | some x, some tbl, some plo, some phi =>
+      resTo (fun (i : Iv) => Sexp.list [Sexp.ofInt i.1.num, Sexp.ofNat i.1.den, Sexp.ofInt i.2.num, Sexp.ofNat i.2.den])
+        (if which == "ivl" then ivEval (tablePrims tbl (plo, phi)) x else evalBounds (tablePrims tbl (plo, phi)) x)
+    | _, _, _, _ => "bad-op"
   | some (.list [.atom "wt", e]) =>
     match exprOf e with
     | some x => toString (Sexp.ofBool (wt x))
